@@ -669,6 +669,70 @@ func checkWiring(p *core.Program, r *core.Report) {
 			}
 		}
 	}
+	// word-list sources hand their words to the library unchanged
+	for _, src := range []*ssa.Function{cli.fileList, cli.builtinList} {
+		if src == nil {
+			r.Unrecognised("R17.3", "-", "word-list source functions", "", "file/builtin list constructors not both found")
+			continue
+		}
+		name := core.FuncName(src)
+		n := 0
+		for _, c := range core.Calls(src) {
+			cv, ok := c.(*ssa.Call)
+			if !ok || core.StaticCallee(cv) != p.Func("NewWordList") {
+				continue
+			}
+			n++
+			arg := cv.Call.Args[0]
+			okArg, why := false, core.Describe(arg)
+			if src == cli.fileList {
+				// strings.Fields(string(data)) with data the bytes of the file named by the parameter
+				if fc, ok := arg.(*ssa.Call); ok && core.CallName(fc) == "strings.Fields" {
+					if cvt, ok := fc.Call.Args[0].(*ssa.Convert); ok {
+						if ex, ok := cvt.X.(*ssa.Extract); ok && ex.Index == 0 {
+							if rc, ok := ex.Tuple.(*ssa.Call); ok && (core.CallName(rc) == "io/ioutil.ReadFile" || core.CallName(rc) == "os.ReadFile") && rc.Call.Args[0] == ssa.Value(src.Params[0]) {
+								okArg = true
+							}
+						}
+					}
+				}
+				why = "the words given to the library must be exactly strings.Fields of the file's contents (any pre-filtering changes list and entropy): " + why
+			} else {
+				// phi of loads of the shipped lists
+				var check func(v ssa.Value, d int) bool
+				check = func(v ssa.Value, d int) bool {
+					if d > 3 {
+						return false
+					}
+					switch x := v.(type) {
+					case *ssa.Phi:
+						for _, e := range x.Edges {
+							if core.IsNilConst(e) {
+								continue // the default (exit) edge
+							}
+							if !check(e, d+1) {
+								return false
+							}
+						}
+						return true
+					case *ssa.UnOp:
+						g, ok := x.X.(*ssa.Global)
+						return ok && g.Pkg == p.Lib
+					}
+					return false
+				}
+				okArg = check(arg, 0)
+			}
+			r.Check(okArg, "R17.3", name, "the word list handed to spg.NewWordList is the unmodified source", p.InstrPos(cv), why)
+			// the result is what is returned
+			for _, ret := range core.Returns(src) {
+				ex, ok := ret.Results[0].(*ssa.Extract)
+				r.Check(ok && ex.Tuple == ssa.Value(cv) && ex.Index == 0, "R17.3", name, "the library's word list is returned as is", p.InstrPos(ret), core.Describe(ret.Results[0]))
+			}
+		}
+		r.Check(n == 1, "R17.3", name, "exactly one call of spg.NewWordList", p.Pos(src.Pos()), fmt.Sprint(n))
+	}
+
 	// parseCharacterClasses: returns phi(0, acc | ccMap[c])
 	{
 		name := core.FuncName(pcc)
